@@ -90,7 +90,7 @@ theorem add_never_dropped (a : Arr M) (h : List (Nat × M)) (t0 latest t : Nat) 
   (add_step a h t0 latest t x inv hle).2
 
 /-- **C08, sums, interleaved with array-level reads**: after any time-monotone sequence of recordings and
-refreshes since creation at `now0 > 0` (time 0 is "no time" in the library), the view sum read at any `now` not
+refreshes at positive times since creation (time 0 is "no time" in the library: `time0_calls_irrelevant`), the view sum read at any `now` not
 before the last call equals the reference over the recordings alone.  Reads therefore compose with later
 recordings: a refresh never changes what any later read returns. -/
 theorem ops_viewSum_eq_ref (n L now0 : Nat) (hn : 0 < n) (hL : 0 < L) (ops : List (Op M))
